@@ -215,36 +215,9 @@ Section INST.
 
   Definition holds8 : bool := holds_steps (c8_steps c).
 
-  (* ------------------------------------------------------------ known finding 1 (F9), over the INPUT:
-     every step at which the oracle fails is an update_cache call issued in a model state where a
-     cache file exists, every id held in memory is in it, and its id set differs from the listing;
-     and only the exactness clause fails there. *)
-  Fixpoint known1_steps (st : fs * sess) (steps : list hstep) : bool :=
-    match steps with
-    | [] => true
-    | x :: r =>
-        let ok := step_c12 x && step_c3 x (hd_error r) in
-        let excused :=
-          step_c12 x
-          && match st_op x with HUpdate => f9_state (fst st) (snd st) | _ => false end in
-        (ok || excused) && known1_steps (fst (mstep st (st_op x))) r
-    end.
-
-  Definition known1 : bool := negb holds8 && known1_steps (fs0, fresh) (c8_steps c).
 End INST.
 
 Definition mismatch_C08 (c : case_C08) : bool := mismatch8 c.
 Definition violation_C08 (c : case_C08) : bool := negb (holds8 c).
-Definition known_tag_C08 (c : case_C08) : N := if known1 c then 1%N else 0%N.
-
-Fixpoint known_aux8 (cs : list case_C08) (i : N) : list N :=
-  match cs with
-  | [] => []
-  | c :: r =>
-      let t := known_tag_C08 c in
-      if N.eqb t 0 then known_aux8 r (N.succ i) else (i * 100 + t)%N :: known_aux8 r (N.succ i)
-  end.
-
 Definition mismatches_C08 (cs : list case_C08) : list N := indices_where mismatch_C08 cs.
 Definition violations_C08 (cs : list case_C08) : list N := indices_where violation_C08 cs.
-Definition known_C08 (cs : list case_C08) : list N := known_aux8 cs 0%N.
